@@ -23,7 +23,7 @@ RULE = ("tapped calls: signals of 1..200 samples (non-constant, sign-changing, i
         "list / array x dB / linear x explicit std, function and Weaver route; statistical runs: N = 2*10^5, snr in dB "
         "and linear, several signal shapes. non-trivial: non-constant signal whose mean(a^2) != mean(a)^2 and != 1; "
         "distinct by case index.")
-REQUIRED_MONITORS = ["c15:tap", "c15:statistical", "c15:reproducible"]
+REQUIRED_MONITORS = ["c15:tap", "c15:statistical", "c15:reproducible", "c15:same_object_again"]
 ASSUMPTIONS = ["SNR > 0; the global NumPy RNG is the documented noise source"]
 NSHARDS = 16
 
@@ -78,10 +78,14 @@ def run_tapped_case(ctx, kind_, idx):
     cid = ctx.case_id(kind_, idx)
     n = int(rng.integers(1, 201))
     a, acls = gen_signal(rng, n)
-    t = int(rng.integers(0, 5))
+    t = int(rng.integers(0, 6))
     via_weaver = bool(rng.integers(0, 3) == 0) and n >= 2
     kw = {}
-    if t == 0:
+    if t == 5:          # nothing given: the documented default std = 1.0 applies
+        snr = None
+    if t == 5:
+        pass
+    elif t == 0:
         snr = float(rng.uniform(-5, 60))
     elif t == 1:
         snr = float(rng.uniform(0.5, 1000))
@@ -152,7 +156,7 @@ def run_tapped_case(ctx, kind_, idx):
     af = np.asarray(a, dtype=float)
     sp = float(np.mean(af * af))
     if snr is None:
-        want = np.float64(kw["std"])
+        want = np.float64(kw.get("std", 1.0))
     else:
         s = np.asarray(snr, dtype=float)
         lin = 10.0 ** (s / 10.0) if kw.get("snr_in_db", True) else s
@@ -170,6 +174,24 @@ def run_tapped_case(ctx, kind_, idx):
     if not np.array_equal(out, af + c["out"]):
         ctx.violation("result_not_input_plus_noise", cid, {"case": info})
         return
+    # the signal power is that of the array's CURRENT content: same object again after an in-place change
+    if not via_weaver and isinstance(ain, np.ndarray) and ain.flags.writeable and ain.dtype.kind == "f" and snr is not None \
+            and rng.integers(0, 3) == 0:
+        factor = float(rng.choice([10.0, 0.05, -3.0]))
+        ain *= factor
+        with Tap() as tap2:
+            np.random.seed(npseed)
+            noise_gauss(ain, snr, **kw)
+        ctx.monitor("c15:same_object_again")
+        if len(tap2.calls) == 1:
+            s_ = np.asarray(snr, dtype=float)
+            lin_ = 10.0 ** (s_ / 10.0) if kw.get("snr_in_db", True) else s_
+            want2 = np.sqrt(float(np.mean(np.asarray(ain, dtype=float) ** 2)) / lin_)
+            got2 = np.asarray(tap2.calls[0]["scale"], dtype=float)
+            if got2.shape != np.shape(want2) or np.any(np.abs(got2 - want2) > 1e-9 * np.abs(want2) + 1e-300):
+                ctx.violation("noise_scale_after_in_place_change_of_the_same_array", cid,
+                              {"factor": factor, "tapped_scale": got2, "want": want2, "case": info})
+                return
     # reproducibility with a fixed seed
     np.random.seed(npseed)
     out2 = noise_gauss(np.array(a), snr, **kw) if snr is not None else noise_gauss(np.array(a), **kw)
